@@ -6,6 +6,7 @@ package sugardb
 import (
 	"slices"
 	"strconv"
+	"strings"
 
 	"github.com/echovault/sugardb/internal"
 	"github.com/echovault/sugardb/internal/constants"
@@ -64,7 +65,13 @@ func c13Module(module string, preferKind int) {
 	}
 	maxE, p2kinds := 1, 2
 	if vr.Tier() > 0 {
-		maxE, p2kinds = 2, 3
+		p2kinds = 3
+		// two elements per collection where that finishes inside the thorough budget (the sorted-set
+		// module with two members per set ran 25 min without covering the bound; printing a
+		// two-field hash with symbolic field names needs an ordering the engine does not model)
+		if module != constants.SortedSetModule && module != constants.GenericModule {
+			maxE = 2
+		}
 	}
 	p1 := gSym("p1", kindOf("p1kind", 3), maxE)
 	p2 := gSym("p2", kindOf("p2kind", p2kinds), maxE)
@@ -205,3 +212,70 @@ func Verif_C13_ReadOnlyKeepsDeadlines() {
 	vr.Assert(exists && has && d == dlMs && gHolds(s, k, gVal{kind: gStr, str: v}), "C13.volatile.readonly_keeps_value_and_deadline")
 	vr.Reach("end")
 }
+
+// verifLMoveNoAlias: after LMOVE the two lists are independent values: a later append to either
+// list leaves the other exactly as the move left it (lists built by separate pushes, so their
+// backing arrays have spare capacity - the situation in which a missing copy shows).
+func verifLMoveNoAlias(tag string) {
+	s := verifServer()
+	src, dst := "src", "dst"
+	n := 1 + vr.Choose("src_len", 4)
+	var ref []string
+	for i := 0; i < n; i++ {
+		e := "s" + itoa(i)
+		c05Run(s, "RPUSH", src, e)
+		ref = append(ref, e)
+	}
+	var dref []string
+	m := vr.Choose("dst_len", 3)
+	for i := 0; i < m; i++ {
+		e := "d" + itoa(i)
+		c05Run(s, "RPUSH", dst, e)
+		dref = append(dref, e)
+	}
+	from := []string{"LEFT", "RIGHT"}[vr.Choose("wherefrom", 2)]
+	to := []string{"LEFT", "RIGHT"}[vr.Choose("whereto", 2)]
+	if m == 0 {
+		// LMOVE needs an existing destination list in this implementation
+		c05Run(s, "RPUSH", dst, "d0")
+		dref = append(dref, "d0")
+	}
+	r := c05Run(s, "LMOVE", src, dst, from, to)
+	var moved string
+	if from == "LEFT" {
+		moved, ref = ref[0], append([]string{}, ref[1:]...)
+	} else {
+		moved, ref = ref[len(ref)-1], append([]string{}, ref[:len(ref)-1]...)
+	}
+	if to == "LEFT" {
+		dref = append([]string{moved}, dref...)
+	} else {
+		dref = append(append([]string{}, dref...), moved)
+	}
+	_ = r
+	// later writes to one list
+	switch vr.Choose("later", 3) {
+	case 0:
+		c05Run(s, "RPUSH", src, "z")
+		ref = append(ref, "z")
+	case 1:
+		c05Run(s, "RPUSH", dst, "z")
+		dref = append(dref, "z")
+	case 2:
+		c05Run(s, "RPUSH", src, "z1")
+		c05Run(s, "RPUSH", src, "z2")
+		ref = append(ref, "z1", "z2")
+	}
+	got := func(k string) string {
+		l, _ := s.store[0][k].Value.([]string)
+		return strings.Join(l, ",")
+	}
+	vr.Assert(got(dst) == strings.Join(dref, ","), tag+".lmove.destination_is_an_independent_value")
+	if len(ref) > 0 {
+		vr.Assert(got(src) == strings.Join(ref, ","), tag+".lmove.source_is_an_independent_value")
+	}
+	vr.Reach("end")
+}
+
+func Verif_C13_LMoveNoAlias() { verifLMoveNoAlias("C13") }
+func Verif_C15_LMoveNoAlias() { verifLMoveNoAlias("C15") }
